@@ -113,7 +113,9 @@ def undo_renames(modules: dict, known_table: dict) -> tuple[list[str], dict]:
             # who calls it: a helper called from the same functions the same number of times, with the same number of
             # parameters, is the same helper even when its (small) body was rewritten
             cur_callers = {c: n for c, n in profile.get(node.name, {}).items() if c != key}
-            if not same_name and want_callers and cur_callers == want_callers:
+            if not same_name and want_callers and cur_callers == want_callers and (len(want) <= 2 or min(score, back) >= 0.3):
+                # for a function of more than two statements the call profile alone is not evidence: part of the body must
+                # be recognisable as well (a *new* helper is often called from the same place as the one it replaces)
                 s = max(s, 0.5 + 0.5 * min(score, back) + (0.2 if want_arity == arity(node) else 0.0))
             if urel == rel:
                 s += 0.05
